@@ -15,7 +15,7 @@ package plugin
 //@ pred dialable(a) := a != nil && (typeis(a, "*net.TCPAddr") ==> unbox(a, "*net.TCPAddr") != nil) && (typeis(a, "*net.UnixAddr") ==> unbox(a, "*net.UnixAddr") != nil)
 //@ pred valid_client(c) := c.config != nil && c.logger != nil && c.config.Stderr != nil && c.config.SyncStdout != nil && c.config.SyncStderr != nil && c.config.AllowedProtocols != nil
 //@ pred valid_reattach(c) := c.config.Reattach != nil ==> dialable(c.config.Reattach.Addr)
-//@ pred inv_client(c) := (c.address != nil ==> dialable(c.address)) && launched[c] >= 0 && launched[c] <= 1 && (launched[c] == 1 && c.config.Cmd != nil ==> c.config.Cmd.Stdout != nil) && (c.client != nil ==> c.address != nil && (c.protocol == "netrpc" || c.protocol == "grpc")) && (c.address != nil ==> c.doneCtx != nil) && (typeis(c.client, "*RPCClient") ==> unbox(c.client, "*RPCClient") != nil) && (typeis(c.client, "*GRPCClient") ==> unbox(c.client, "*GRPCClient") != nil)
+//@ pred inv_client(c) := (c.address != nil ==> dialable(c.address)) && launched[c] >= 0 && launched[c] <= 1 && (launched[c] == 1 && c.config.Cmd != nil ==> c.config.Cmd.Stdout != nil) && (c.client != nil ==> c.address != nil && (c.protocol == "netrpc" || c.protocol == "grpc")) && (c.address != nil ==> c.doneCtx != nil) && (c.client != nil && c.protocol == "netrpc" ==> typeis(c.client, "*RPCClient")) && (c.client != nil && c.protocol == "grpc" ==> typeis(c.client, "*GRPCClient")) && (typeis(c.client, "*RPCClient") ==> unbox(c.client, "*RPCClient") != nil) && (typeis(c.client, "*GRPCClient") ==> unbox(c.client, "*GRPCClient") != nil)
 
 //@ type Client
 //@   guarded_by l: exited, runner, client, processKilled, address, ghost:launched   [C20.guard] [C19.once]
@@ -264,6 +264,10 @@ package plugin
 //@   ensures result1 != nil ==> result0 == nil   [C19.client]
 //@   ensures result1 == nil ==> c.doneCtx != nil   [C03.a]
 //@   ensures result1 == nil ==> c.protocol == "netrpc" || c.protocol == "grpc"   [C14.allowed]
+//@   at call newRPCClient#1 assert c.protocol == "netrpc" && arg0 == c   [C14.proto]
+//@   at call newGRPCClient#1 assert c.protocol == "grpc" && arg1 == c && arg0 == c.doneCtx   [C14.proto] [C03.e]
+//@   ensures result1 == nil && c.protocol == "netrpc" ==> typeis(result0, "*RPCClient")   [C14.proto]
+//@   ensures result1 == nil && c.protocol == "grpc" ==> typeis(result0, "*GRPCClient")   [C14.proto]
 
 //@ func (*Client).Protocol
 //@   nopanic [C19.total]
@@ -720,6 +724,7 @@ package plugin
 //@   requires c.control != nil && c.stdout != nil && c.stderr != nil && c.broker != nil && c.broker.session != nil
 //@   modifies rpc_calls, conns_open, tokens
 //@   after call (*rpc.Client).Call#1 bind quit_err: Iface := ret
+//@   at call (*rpc.Client).Call#1 assert recv == c.control && arg0 == "Control.Quit"   [C04.graceful]
 //@   ensures quit_err != nil ==> result != nil   [C04.graceful]
 
 //@ lemma C06.pairing   [C06.L]
@@ -1233,6 +1238,7 @@ package plugin
 //@   at call (ServerProtocol).Init#1 assert opts.TLSProvider == nil && getenv("PLUGIN_CLIENT_CERT") != "" ==> tlsConfig != nil && tlsConfig == tc && tc.ClientAuth == 4 && tc.ClientCAs == pool && pool_pem(pool) == getenv("PLUGIN_CLIENT_CERT") && tc.MinVersion >= 771   [C12.server]
 //@   at call (ServerProtocol).Init#1 assert opts.TLSProvider == nil && getenv("PLUGIN_CLIENT_CERT") == "" ==> tlsConfig == nil   [C12.server]
 //@   at call (ServerProtocol).Serve#1 assert arg0 == listener && recv == server   [C12.wrap]
+//@   at call (ServerProtocol).Init#1 assert (pt == "netrpc" ==> typeis(server, "*RPCServer")) && (pt == "grpc" ==> typeis(server, "*GRPCServer")) && recv == server   [C14.proto] [C02.serve]
 //@   at call (ServerProtocol).Init#1 assert pt == "netrpc" ==> unbox(server, "*RPCServer").Plugins == pset   [C02.serve]
 //@   at call (ServerProtocol).Init#1 assert pt == "grpc" ==> unbox(server, "*GRPCServer").Plugins == pset && unbox(server, "*GRPCServer").Server == opts.GRPCServer   [C02.serve]
 //@   at call (ServerProtocol).Serve#1 assert opts.Test == nil && pt == "grpc" ==> unbox(server, "*GRPCServer").Stdout == iface(cast(pipe_reader(pkg("os").Stdout), "*os.File")) && unbox(server, "*GRPCServer").Stderr == iface(cast(pipe_reader(pkg("os").Stderr), "*os.File"))   [C11.pipe]
@@ -1405,7 +1411,10 @@ package plugin
 //@   modifies heap_fresh
 
 //@ func (*GRPCClient).Close
-//@   nopanic [C03.d]
+//@   nopanic [C03.d] [C04.total]
+//@   at call (*GRPCBroker).Close#1 assert recv == c.broker   [C04.graceful] [C18.broker]
+//@   at call (plugin.GRPCControllerClient).Shutdown#1 assert recv == c.controller && arg0 == c.doneCtx   [C04.graceful]
+//@   at call (*grpc.ClientConn).Close#1 assert recv == c.Conn   [C04.graceful] [C18.broker]
 //@   requires c.broker != nil && c.controller != nil && c.Conn != nil && c.broker.streamer != nil && c.broker.doneCh != nil
 //@   modifies heap
 
